@@ -51,6 +51,8 @@ def build_node_ext(node, objs, notes=None):
     for kk, r in zip(node['keys'], node['items']):
       d[leaves.dec(kk)] = recipes.deref(r, objs)
     return d
+  if k == 'odict':   # a dict subclass: not traversed by daglish, i.e. a mutable leaf
+    return collections.OrderedDict((leaves.dec(kk), leaves.dec(v)) for kk, v in zip(node['keys'], node['vals']))
   if k == 'holder':
     return things.DictObj(**{n: recipes.deref(r, objs) for n, r in node['attrs'].items()})
   if k == 'set':      # 'elems' (leaf encodings, not refs); 'items' is read for old replay files
@@ -223,6 +225,8 @@ def dag(draw, *, max_nodes=12, leaf_profile='plain', kinds=None, p_alias=0.55,
       kw = {'a': lref}
       if draw(st.booleans()):
         kw['other'] = lref if draw(st.booleans()) else ref()
+      elif draw(st.booleans()):
+        kw['a_done'] = lref
       node = {'k': 'B', 'bt': draw(st.sampled_from(list(bts))), 'fn': {'kind': 'sym', 'name': 'things:mutdef1'},
               'pos': [], 'kw': kw, 'edits': []}
     elif kind == 'Bmut':
@@ -248,6 +252,9 @@ def dag(draw, *, max_nodes=12, leaf_profile='plain', kinds=None, p_alias=0.55,
       hs = leaves.leaf('hashable_ser')
       items = draw(st.lists(hs, max_size=4, unique_by=lambda k: _hash_key(leaves.dec(k))))
       node = {'k': kind, 'elems': items}
+    elif kind == 'odict':
+      keys = draw(st.lists(st.sampled_from(['a', 'b', 'k', 1]), unique=True, min_size=1, max_size=3))
+      node = {'k': 'odict', 'keys': keys, 'vals': [draw(leaf_st) for _ in keys]}
     elif kind == 'holder':
       node = {'k': 'holder', 'attrs': {n: ref() for n in draw(st.lists(st.sampled_from(['inner', 'other']), unique=True, min_size=1))}}
     elif kind == 'ltuple':
